@@ -3,12 +3,12 @@
 //! A `#[global_allocator]` wrapper over `System`.  Allocations are recorded
 //! only while the calling thread is inside a *recording window* (every call
 //! into library code made by W4 is wrapped in one); deallocations and
-//! reallocations are always checked against the thread's table when the
+//! reallocations are always checked against the process's table when the
 //! pointer is in it.  A mismatch is recorded, never aborted on, so the run
 //! finishes and the ledger can name the handle.
 //!
 //! The table is a fixed-capacity open-addressing array obtained from `System`
-//! directly and owned by the thread (no locking, no recursion).
+//! directly (no locking, no recursion); a worker process runs one case at a time.
 
 use std::alloc::{GlobalAlloc, Layout, System};
 use std::cell::Cell;
@@ -46,9 +46,12 @@ pub struct Violation {
 
 thread_local! {
     static RECORDING: Cell<bool> = const { Cell::new(false) };
-    static TABLE: Cell<*mut Table> = const { Cell::new(std::ptr::null_mut()) };
     static TAG: Cell<u32> = const { Cell::new(0) };
 }
+
+/// One table per process: a worker process executes one run at a time (each on a fresh thread, see hashseam.rs)
+/// while its main thread waits, so the table is never used by two threads at once.
+static TABLE: std::sync::atomic::AtomicPtr<Table> = std::sync::atomic::AtomicPtr::new(std::ptr::null_mut());
 
 fn hash(p: usize) -> usize {
     let x = (p >> 3).wrapping_mul(0x9E37_79B9_7F4A_7C15);
@@ -161,9 +164,9 @@ impl Table {
     }
 }
 
-/// The calling thread's table (created on first use).
+/// The process's table (created on first use).
 pub fn table() -> &'static mut Table {
-    let p = TABLE.with(|t| t.get());
+    let p = TABLE.load(std::sync::atomic::Ordering::Relaxed);
     if !p.is_null() {
         return unsafe { &mut *p };
     }
@@ -188,7 +191,7 @@ pub fn table() -> &'static mut Table {
                 nviol: 0,
             },
         );
-        TABLE.with(|c| c.set(t));
+        TABLE.store(t, std::sync::atomic::Ordering::Relaxed);
         &mut *t
     }
 }
@@ -237,7 +240,7 @@ unsafe impl GlobalAlloc for Audit {
     unsafe fn alloc(&self, layout: Layout) -> *mut u8 {
         let p = System.alloc(layout);
         if !p.is_null() && RECORDING.with(|r| r.get()) {
-            let t = TABLE.with(|t| t.get());
+            let t = TABLE.load(std::sync::atomic::Ordering::Relaxed);
             if !t.is_null() {
                 (*t).insert(p as usize, layout.size(), layout.align());
             }
@@ -248,7 +251,7 @@ unsafe impl GlobalAlloc for Audit {
     unsafe fn alloc_zeroed(&self, layout: Layout) -> *mut u8 {
         let p = System.alloc_zeroed(layout);
         if !p.is_null() && RECORDING.with(|r| r.get()) {
-            let t = TABLE.with(|t| t.get());
+            let t = TABLE.load(std::sync::atomic::Ordering::Relaxed);
             if !t.is_null() {
                 (*t).insert(p as usize, layout.size(), layout.align());
             }
@@ -257,7 +260,7 @@ unsafe impl GlobalAlloc for Audit {
     }
 
     unsafe fn dealloc(&self, ptr: *mut u8, layout: Layout) {
-        let t = TABLE.with(|t| t.get());
+        let t = TABLE.load(std::sync::atomic::Ordering::Relaxed);
         if !t.is_null() {
             let t = &mut *t;
             match t.find(ptr as usize) {
@@ -297,7 +300,7 @@ unsafe impl GlobalAlloc for Audit {
     }
 
     unsafe fn realloc(&self, ptr: *mut u8, layout: Layout, new_size: usize) -> *mut u8 {
-        let t = TABLE.with(|t| t.get());
+        let t = TABLE.load(std::sync::atomic::Ordering::Relaxed);
         let mut tracked = false;
         if !t.is_null() {
             let t = &mut *t;
@@ -320,12 +323,12 @@ unsafe impl GlobalAlloc for Audit {
         }
         let p = System.realloc(ptr, layout, new_size);
         if !p.is_null() && (tracked || RECORDING.with(|r| r.get())) {
-            let t = TABLE.with(|t| t.get());
+            let t = TABLE.load(std::sync::atomic::Ordering::Relaxed);
             if !t.is_null() {
                 (*t).insert(p as usize, new_size, layout.align());
             }
         } else if p.is_null() && tracked {
-            let t = TABLE.with(|t| t.get());
+            let t = TABLE.load(std::sync::atomic::Ordering::Relaxed);
             if !t.is_null() {
                 (*t).insert(ptr as usize, layout.size(), layout.align());
             }
